@@ -41,7 +41,11 @@ _TYPED = {
 }
 _BNODEY = {"s1": BNode("s1"), "s2": BNode("s2"), "s3": BNode(), "o1": BNode("o1"), "o2": Literal("x"), "o3": BNode()}
 
-VOCABS = {"plain": {}, "falsy": _FALSY, "hostile": _HOSTILE, "typed": _TYPED, "bnodey": _BNODEY}
+_RDF = "http://www.w3.org/1999/02/22-rdf-syntax-ns#"
+# rdf:List vocabulary: s1, s2 are list cells, p1 / p2 = rdf:first / rdf:rest, p3 = rdf:type, o3 = rdf:List, o2 = rdf:nil
+_LISTY = {"s1": BNode("cell1"), "s2": BNode("cell2"), "p1": URIRef(_RDF + "first"), "p2": URIRef(_RDF + "rest"), "p3": URIRef(_RDF + "type"),
+          "o2": URIRef(_RDF + "nil"), "o3": URIRef(_RDF + "List")}
+VOCABS = {"plain": {}, "falsy": _FALSY, "hostile": _HOSTILE, "typed": _TYPED, "bnodey": _BNODEY, "listy": _LISTY}
 
 
 class Vocab:
